@@ -525,6 +525,35 @@ pub fn non_ascii_string<V: Variant>(rng: &mut Rng) -> String {
     out
 }
 
+
+/// An accepted spelling wrapped in what a lenient front end might strip: line terminators,
+/// blanks, NUL, quotes, a BOM, a sign, a radix or doubled version prefix, separators. The crate's
+/// parser takes the whole string, so none of these may be forgiven; what exactly the error is
+/// (length, prefix or character) is left to the codec model.
+pub fn decorated_string<V: Variant>(rng: &mut Rng) -> String {
+    let b = gen::hash_bytes(rng, V::SIZE, V::CK, V::NB, true);
+    let base = String::from_utf8(super::codec::random_case_text::<V>(rng, &b)).unwrap_or_default();
+    const TAILS: &[&str] = &["\n", "\r\n", "\r", " ", "\t", "\0", "\n\n", "  ", ",", ";", "\u{a0}", "\u{2028}", "\u{c}", "\u{b}"];
+    const HEADS: &[&str] = &[" ", "\n", "\t", "\u{feff}", "+", "0x", "T1", "\0", "\r\n", "  "];
+    match rng.below(8) {
+        0 | 1 | 2 => format!("{}{}", base, rng.pick(TAILS)),
+        3 | 4 => format!("{}{}", rng.pick(HEADS), base),
+        5 => format!("{}{}{}", rng.pick(HEADS), base, rng.pick(TAILS)),
+        6 => format!("\"{}\"", base),
+        _ => {
+            // the decoration replaces the last / first characters, so the byte length stays accepted
+            let t = *rng.pick(&["\n", "\r\n", " ", "\0", "\t"]);
+            if rng.chance(1, 2) && base.len() > t.len() {
+                format!("{}{}", &base[..base.len() - t.len()], t)
+            } else if base.len() > t.len() {
+                format!("{}{}", t, &base[t.len()..])
+            } else {
+                base
+            }
+        }
+    }
+}
+
 pub fn gen_string<V: Variant>(rng: &mut Rng, kind: Kind) -> String {
     let strict = cfg!(feature = "strict");
     let mut b = gen::hash_bytes(rng, V::SIZE, V::CK, V::NB, true);
@@ -666,9 +695,16 @@ fn c13_variant<V: Variant>(ctx: &Ctx, rep: &mut Report) {
             l = non_ascii_string::<V>(&mut rng);
             rep.count("compare:non_ascii_operands", 1);
         }
+        if rng.chance(1, 16) {
+            l = decorated_string::<V>(&mut rng);
+            rep.count("compare:decorated_operands", 1);
+        }
         let r = if rng.chance(1, 16) {
             rep.count("compare:non_ascii_operands", 1);
             non_ascii_string::<V>(&mut rng)
+        } else if rng.chance(1, 12) {
+            rep.count("compare:decorated_operands", 1);
+            decorated_string::<V>(&mut rng)
         } else if kl == Kind::Valid && l.is_ascii() && rng.chance(1, 6) {
             // the very same digits as the left operand, re-spelled: other letter case, prefix
             // dropped / added / damaged ("t1", "T2", "1T")
@@ -714,6 +750,7 @@ pub fn run_compare(ctx: &Ctx, rep: &mut Report) {
     }
     rep.floor("compare:both_valid", 100);
     rep.floor("compare:non_ascii_operands", 20);
+    rep.floor("compare:decorated_operands", 20);
     rep.floor("compare:same_digits_respelled", 20);
 }
 
